@@ -5,9 +5,11 @@
    by the next open. *)
 From Cas Require Import History.
 From CasProofs Require Import BaseProofs CodecBase CodecProofs SMapProofs IndexProofs
-  StoreFS StoreInv StoreWrite StoreRead StoreHist DiskInv Recover CrashInv CrashOps.
+  StoreFS StoreInv StoreWrite StoreRead StoreHist DiskInv Recover CrashInv CrashOps PreTree.
 From Coq Require Import ZifyBool ZifyNat ZifyN.
 Open Scope N_scope.
+
+Local Opaque all256.
 
 Arguments N.add : simpl never.
 Arguments N.sub : simpl never.
@@ -169,12 +171,12 @@ Section CrashOpen.
   (* ---------------------------------------------------------------- *)
   (* open_with_recover from the memory-less invariant                  *)
   (* ---------------------------------------------------------------- *)
-  Lemma fresh_disk : forall dv : path -> option bytes, c_n cfg < 2 ^ 64 ->
-    dv PSettings = Some (enc_settings CURRENT_DB_VERSION false (c_n cfg)) ->
+  Lemma fresh_disk : forall (pre : bool) (dv : path -> option bytes), c_n cfg < 2 ^ 64 ->
+    dv PSettings = Some (enc_settings CURRENT_DB_VERSION pre (c_n cfg)) ->
     dv PIndex = None -> (forall i, dv (PWal i) = None) ->
-    DiskOkW 0 1 (seg_of 1) false dv [].
+    DiskOkW 0 1 (seg_of 1) pre dv [].
   Proof.
-    intros dv Nfit Gs Gi Gw.
+    intros pre dv Nfit Gs Gi Gw.
     exists [], (fun _ => []), (fun _ => false), [], []. constructor.
     - split; [cbn [length]; pow_consts; lia|constructor].
     - eexists. split; [exact Gs|].
@@ -228,7 +230,9 @@ Section CrashOpen.
     assert (Hd3 : has_dir (wfs w3) [s_staging] = true /\ has_dir (wfs w3) [s_cas] = true).
     { unfold has_dir. rewrite Dd3. split; [apply (gr_dirs _ _ G2), D1|exact D2]. }
     (* from here on: settings, then index_load from a RestP state w4 *)
-    assert (Tail : forall c nv pre w4 (X4 : Eff w3 w4),
+    assert (Tail : forall c nv pre wb w4
+                     (Hdb : has_dir (wfs wb) [s_staging] = true /\ has_dir (wfs wb) [s_cas] = true)
+                     (X4 : Eff wb w4),
               RestP c nv (seg_of nv) pre sg (wfs w4) -> 1 <= nv -> nv <= B ->
               Walk (fun x => RestB B x sg) w3 w4 ->
               exists m' os w',
@@ -245,16 +249,16 @@ Section CrashOpen.
                 has_dir (wfs w') [s_staging] = true /\ has_dir (wfs w') [s_cas] = true /\
                 ssz (idx m') = match fdat (wfs w') PIndex with Some d => len d | None => 0 end /\
                 Walk (fun x => RestB B x sg) w w').
-    { intros c nv pre w4 X4 R4 Nv1 NvB K4. destruct R3 as (Ss & Nc & _).
+    { intros c nv pre wb w4 Hdb X4 R4 Nv1 NvB K4. destruct R3 as (Ss & Nc & _).
       destruct (a_index_load B c nv pre sg w4 NvB (proj1 X4) R4 Ss Nc)
         as (m' & w' & E' & X' & P1 & P2 & P3 & P4 & P5 & P6 & P7 & P8 & K').
       rewrite (bind_eq _ _ _ _ _ E'). unfold bind, get_fs, ret.
       eexists m', _, w'. split; [reflexivity|]. split; [exact (proj1 X')|].
       split; [exact P2|]. split; [now rewrite P1|]. split; [now rewrite P1|]. split; [exact P4|]. split; [exact P5|].
       rewrite P1, P3. split; [exact P6|].
-      assert (Dd : dirs (wfs w') = dirs (wfs w3)).
+      assert (Dd : dirs (wfs w') = dirs (wfs wb)).
       { destruct X' as (_ & _ & Da & _). destruct X4 as (_ & _ & Db & _). congruence. }
-      unfold has_dir. rewrite Dd. split; [exact (proj1 Hd3)|]. split; [exact (proj2 Hd3)|].
+      unfold has_dir. rewrite Dd. split; [exact (proj1 Hdb)|]. split; [exact (proj2 Hdb)|].
       split; [exact P8|]. exact (walk_trans _ _ _ _ K03 (walk_trans _ _ _ _ K4 K')). }
     pose proof R3 as (Ss & Nc & [(c & nv & pre & NvB & RP3)|RF3]).
     - (* an initialised directory *)
@@ -264,35 +268,61 @@ Section CrashOpen.
       unfold bind at 1, read_file at 1. rewrite Gf, Df, Es.
       rewrite !N.eqb_refl. cbn [negb].
       rewrite (bind_eq _ _ _ _ _ (eq_refl : ret (Ok pre) w3 = (Ok pre, w3))).
-      apply (Tail c nv pre w3 (eff_refl _ F3 W3) RP3).
+      apply (Tail c nv pre w3 w3 Hd3 (eff_refl _ F3 W3) RP3).
       + rewrite (dw_nv _ _ _ _ _ _ _ _ _ _ _ _ _ Dw). lia.
       + exact NvB.
       + now apply walk_refl.
-    - (* first-time initialisation *)
-      destruct RF3 as (E0 & Pre & Nfit & _ & Sf3 & Gs3 & Gi3 & Gw3). subst sg.
+    - (* first-time initialisation; with pre_create_cas_dirs the fan-out directories first (any
+         part of the tree may exist already: mkdir_p skips what exists) *)
+      destruct RF3 as (E0 & Nfit & _ & Sf3 & Gs3 & Gi3 & Gw3). subst sg.
       apply fdat_none in Gs3.
-      unfold bind at 1, read_file at 1. rewrite Gs3, Pre.
-      set (data := enc_settings CURRENT_DB_VERSION false (c_n cfg)).
-      set (v4 := vset (vset (fdat (wfs w3)) PSettingsTmp None) PSettings (Some data)).
-      assert (A3 : Aux false [] (wfs w3)).
-      { split; [exact W3|]. split; [exact Sf3|]. split; [discriminate|intros k c []]. }
-      assert (A4 : AtW (RestP 0 1 (seg_of 1) false []) (wfs w3) v4).
-      { apply (restp_atw H cfg); [exact A3| | |].
+      unfold bind at 1, read_file at 1. rewrite Gs3.
+      assert (PC : exists wp,
+                (if c_pre cfg then pre_create_all else ret (Ok tt)) w3 = (Ok tt, wp) /\
+                wfault wp = None /\ files (wfs wp) = files (wfs w3) /\
+                nstage (wfs wp) = nstage (wfs w3) /\
+                (forall d, has_dir (wfs w3) d = true -> has_dir (wfs wp) d = true) /\
+                pre_dirs (c_pre cfg) (wfs wp) /\ Walk (fun x => RestB B x []) w3 wp).
+      { destruct (c_pre cfg) eqn:Pre.
+        - destruct (pre_create_all_ok w3 F3 (proj2 Hd3)) as (wp & Ep & Gp & Pp).
+          exists wp. split; [exact Ep|]. split; [exact (proj1 (gr_ext _ _ Gp))|].
+          split; [exact (gr_files _ _ Gp)|]. split; [exact (gr_nstage _ _ Gp)|].
+          split; [exact (gr_dirs _ _ Gp)|]. split.
+          + intros _ h Lh Bh. apply (PreDirs_WfDirs _ Pp). now split.
+          + eapply walkm_weaken_run; [|exact F3|exact R3|exact Ep].
+            unfold pre_create_all. apply walkm_mkdirs_pre. exact Kmk.
+        - exists w3. split; [reflexivity|]. split; [exact F3|]. split; [reflexivity|].
+          split; [reflexivity|]. split; [auto|]. split; [discriminate|now apply walk_refl]. }
+      destruct PC as (wp & Ep & Fp & Flp & Nsp & Dp & Pdp & Kp).
+      pose proof (walk_end _ _ _ Kp) as Rp.
+      assert (Wp : FsWf (wfs wp)) by (unfold FsWf; now rewrite Flp).
+      assert (Vp : forall q, fdat (wfs wp) q = fdat (wfs w3) q) by (now apply fdat_files).
+      assert (Hdp : has_dir (wfs wp) [s_staging] = true /\ has_dir (wfs wp) [s_cas] = true).
+      { split; apply Dp; [exact (proj1 Hd3)|exact (proj2 Hd3)]. }
+      set (pre := c_pre cfg) in *.
+      set (data := enc_settings CURRENT_DB_VERSION pre (c_n cfg)).
+      set (v4 := vset (vset (fdat (wfs wp)) PSettingsTmp None) PSettings (Some data)).
+      assert (Ap : Aux pre [] (wfs wp)).
+      { split; [exact Wp|]. split; [|split; [exact Pdp|intros k c []]].
+        intros i Li. rewrite Vp. apply Sf3. now rewrite <- Nsp. }
+      assert (A4 : AtW (RestP 0 1 (seg_of 1) pre []) (wfs wp) v4).
+      { apply (restp_atw H cfg); [exact Ap| | |].
         - intros i. unfold v4. now rewrite !vset_other by discriminate.
         - intros k c [].
         - apply fresh_disk; [exact Nfit| | |].
           + unfold v4. apply vset_same.
-          + unfold v4. now rewrite !vset_other by discriminate.
-          + intros i. unfold v4. now rewrite !vset_other by discriminate. }
-      destruct (a_atomic_write (fun x => RestB B x []) PSettings PSettingsTmp data w3 F3 W3
-                  eq_refl eq_refl R3) as (w4 & E4 & X4 & V4 & K4).
-      { intros o. apply (restb_atw H cfg); try exact R3; intros; now rewrite vset_other by discriminate. }
-      { eapply atw_weaken; [|exact A4]. intros x Rx. now apply (ToRest B 0 1 false). }
+          + unfold v4. rewrite !vset_other by discriminate. now rewrite Vp.
+          + intros i. unfold v4. rewrite !vset_other by discriminate. now rewrite Vp. }
+      destruct (a_atomic_write (fun x => RestB B x []) PSettings PSettingsTmp data wp Fp Wp
+                  eq_refl eq_refl Rp) as (w4 & E4 & X4 & V4 & K4).
+      { intros o. apply (restb_atw H cfg); try exact Rp; intros; now rewrite vset_other by discriminate. }
+      { eapply atw_weaken; [|exact A4]. intros x Rx. now apply (ToRest B 0 1 pre). }
       match goal with |- exists _ _ _, bind ?X _ w3 = _ /\ _ =>
-        assert (ERS : X w3 = (Ok false, w4)) end.
-      { unfold bind at 1. cbn [ret]. rewrite (bind_eq _ _ _ _ _ E4). reflexivity. }
+        assert (ERS : X w3 = (Ok pre, w4)) end.
+      { rewrite (bind_eq _ _ _ _ _ Ep). rewrite (bind_eq _ _ _ _ _ E4). reflexivity. }
       rewrite (bind_eq _ _ _ _ _ ERS).
-      apply (Tail 0 1 false w4 X4); [|lia|exact B1|exact K4]. eapply atw_eff; eassumption.
+      apply (Tail 0 1 pre wp w4 Hdp X4); [|lia|exact B1|exact (walk_trans _ _ _ _ Kp K4)].
+      eapply atw_eff; eassumption.
   Qed.
 
   Lemma restp_live : forall m x sg, sorted cmp sg -> NoCollide (map snd sg) ->
@@ -429,8 +459,36 @@ Section CrashOpen.
       as (m' & os & w' & E & _ & IV & _).
     now exists m', os, w'.
   Qed.
+
+  (* the empty directory is a state of the invariant (first-time clause), for either choice
+     of pre_create_cas_dirs *)
+  Lemma rest_empty : c_n cfg < 2 ^ 64 -> Rest empty_fs [].
+  Proof.
+    intros Nfit. split; [constructor|]. split; [intros a b []|]. right.
+    split; [reflexivity|]. split; [exact Nfit|]. split; [exact empty_fs_wf|].
+    repeat split; intros; reflexivity.
+  Qed.
+
+  (* The FIRST open of an empty directory, killed after ANY number of its calls -- also in the
+     middle of the 2 x 65,536 mkdir_p steps of the fan-out tree when pre_create_cas_dirs = true --
+     and the recoveries from that killed again, to any depth: the state left is a state of the
+     invariant for the empty map, and the next open succeeds with a handle for the empty map
+     (it creates the rest of the tree, then writes the settings file). *)
+  Theorem first_open_crash : c_n cfg < 2 ^ 64 -> forall ns,
+    let y := fold_left (fun y n => crash_open n y) ns empty_fs in
+    Rest y [] /\
+    exists m' os w', open_with_recover H cfg (init_world y None) = (Ok (m', os), w') /\
+                     Inv' m' (wfs w') [].
+  Proof.
+    intros Nfit ns y. pose proof (nested_crash_open ns empty_fs [] (rest_empty Nfit)) as Ry.
+    fold y in Ry. split; [exact Ry|].
+    destruct (rest_open_inv' y [] (init_world y None) Ry eq_refl eq_refl)
+      as (m' & os & w' & E & _ & IV & _).
+    now exists m', os, w'.
+  Qed.
 End CrashOpen.
 
 Print Assumptions rest_open.
 Print Assumptions open_crash.
 Print Assumptions nested_crash_then_open.
+Print Assumptions first_open_crash.
